@@ -70,6 +70,10 @@ func parseNumber(input []byte) (int, bool) {
 				return 0, false
 			}
 		}
+		// The exponent needs at least one digit.
+		if s[0] < '0' || '9' < s[0] {
+			return 0, false
+		}
 		for len(s) > 0 && '0' <= s[0] && s[0] <= '9' {
 			s = s[1:]
 			n++
